@@ -87,5 +87,6 @@ fn run(r: &mut Run) -> Result<(), MachineryError> {
     char_context_space(r, "C07/all-characters-in-context", M_C07, vec![Alg::FirstFit])?;
     escape_scan_space(r, "C07/escape-grammar-scan", M_C07, vec![Alg::FirstFit])?;
     scale::frag_scale(r, "C07/long-periodic", "C07")?;
+    scale::text_scale(r, "C07/long-paragraphs", "C07")?;
     words_through_wrap_algorithm(r)
 }
